@@ -53,7 +53,8 @@ THEOREMS = ['C05_pot_transform_compl_untouched', 'C05_pot_transform_den',
             'C05_descents_distinct', 'C05_by_universe_lists',
             'C05_inline_cells_den', 'C05_trcl_phase_den',
             'C05_explicit_transformation_not_empty',
-            'C05_inline_cells_den_conv', 'C05_pipeline_located']
+            'C05_inline_cells_den_conv', 'C05_pipeline_located',
+            'C05_precedence_from_tokens', 'C05_precedence_located']
 
 
 def tie_case_summary(case):
@@ -414,6 +415,48 @@ def run(res, tier, seed, proofs_ok):
                                     'error': err}, found_input=False)
     tie_broken = tie_broken or bool(kbad or kerrs)
 
+    # 2c. whole cell cards: parse_one_cell_worker -> universe, fillid, filltr,
+    #     trcl of the CellMCNP (Model.cell_of_keywords)
+    ck_cases, ck_meta = [], []
+    for i in range(300 if tier == 'quick' else 3000):
+        case = c05_kw.gen_cell_case(rng)
+        try:
+            outcome = c05_kw.run_cell_impl(case)
+        except Exception as exc:
+            res.violation(
+                'impl-violation',
+                f'cell options {case["option"]!r}: {type(exc).__name__}: {exc}',
+                {'input': {'cell_kw_case': case},
+                 'theorem_or_correspondence': 'tie:cell_kw'},
+                found_input=True)
+            continue
+        ck_cases.append(c05_kw.coq_cell_case(case, outcome))
+        ck_meta.append((case, outcome))
+        res.seen(ck_cases[-1], nontrivial=case['fill'] is not None
+                 or case['trcl'] is not None)
+        res.count('cellkw:fill=' + (case['fill']['kind'] if case['fill']
+                                    else 'absent')
+                  + ',trcl=' + ('present' if case['trcl'] else 'absent'))
+    cbad, cerrs = common.run_case_files('c05_ck', HEADER, 'ckcase',
+                                        'check_cell_kw', ck_cases, chunk=150)
+    res.obligation(f'tie:cell_kw ({len(ck_cases)} cell option strings: model '
+                   'cell_of_keywords = universe / fillid / filltr / trcl of '
+                   'the CellMCNP)', not cbad and not cerrs,
+                   f'{len(cbad)} disagreements {cerrs[:1]}')
+    for idx in cbad[:6]:
+        case, outcome = ck_meta[idx]
+        res.violation(
+            'correspondence',
+            f'cell options {case["option"]!r} give {outcome!r}; the model '
+            'differs (or a 12-entry transformation is not the written one)',
+            {'input': {'cell_kw_case': case}, 'observed': outcome,
+             'theorem_or_correspondence': 'tie:cell_kw'}, found_input=False)
+    for err in cerrs[:2]:
+        res.violation('correspondence', 'generated case file failed: '
+                      + err[:300], {'theorem_or_correspondence': 'tie:cell_kw',
+                                    'error': err}, found_input=False)
+    tie_broken = tie_broken or bool(cbad or cerrs)
+
     # 3. sweep with the independent oracle (more of it when the tie broke)
     bad_decks = sweep(res, rng, n_decks, n_points, 'sweep')
     if tie_broken and bad_decks == 0:
@@ -464,6 +507,18 @@ def replay(path):
                 ref = mcnpref.Reference(deck)
                 print('reference chain at the recorded point:',
                       ref.locate(np.array(inp['point'], float)))
+    elif 'cell_kw_case' in inp:
+        case = inp['cell_kw_case']
+        case['table'] = {int(k): v for k, v in case['table'].items()}
+        for sub in (case['fill'], case['trcl']):
+            if sub is not None:
+                sub['table'] = case['table']
+        outcome = c05_kw.run_cell_impl(case)
+        print('cell options:', case['option'], '| TR cards', case['table'])
+        print('implementation (universe, fillid, filltr, trcl):', outcome)
+        ok, _ = common.coq_eval(HEADER, 'check_cell_kw '
+                                + c05_kw.coq_cell_case(case, outcome))
+        print('model agrees:', ok)
     elif 'kw_case' in inp:
         case = inp['kw_case']
         case['table'] = {int(k): v for k, v in case['table'].items()}
